@@ -104,14 +104,14 @@ JudgeRec(pos, first, rec) ==
 
 TraceInit == /\ tid \in 1..Len(Traces)
              /\ l = 1
-             /\ case = 0
+             /\ case = 0 /\ dom = 0
              /\ JudgeFirst(Traces[tid][1])
 
 TraceNext == /\ l < Len(Traces[tid])
              /\ JudgeRec(l + 1, Traces[tid][1], Traces[tid][l + 1])
-             /\ l' = l + 1 /\ tid' = tid /\ case' = case
+             /\ l' = l + 1 /\ tid' = tid /\ UNCHANGED <<case, dom>>
 
-TraceSpec == TraceInit /\ [][TraceNext]_<<case, tid, l>>
+TraceSpec == TraceInit /\ [][TraceNext]_<<case, dom, tid, l>>
 
 Total == Data.total
 AllConsumed == TLCGet("distinct") = Total
